@@ -41,29 +41,39 @@ MR_HARNESSES_C02 = [
 ]
 
 _B_LIVE = ("real MessageReceiver with one real Reader with entity id SPDP_BUILTIN_PARTICIPANT_READER (BestEffort, KeepLast 1, no matched writer) "
-           "registered; DATA (SN 1, 8-byte static payload) fed through the real handle_submessage -> handle_writer_submessage -> real Reader::handle_data_msg; "
+           "registered; DATA (SN 1, no payload, no inline QoS) fed through the real handle_submessage -> handle_writer_submessage; Reader::handle_data_msg is a recorder under Kani (real natively); "
            "source prefix byte 0 any (not own)")
 
+# NOT READY: every c12_mr_liveness_* harness TIMES OUT (600 s quick / 240-300 s in single runs) as soon as a DATA
+# submessage enters the Writer arm of MessageReceiver::handle_submessage with a Reader registered, even with
+# Reader::handle_data_msg stubbed to a recorder and a payload-free DATA.  All are tier="thorough" so that a quick
+# run never waits for them; do not import into C12.py before the cause is found (see the report).
 MR_HARNESSES_C12 = [
     H("c12_mr_liveness_unknown_reader", _mr,
       "a DATA from SPDP_BUILTIN_PARTICIPANT_WRITER with readerId ENTITYID_UNKNOWN (what the spec's stateless SPDP writer sends) produces exactly one "
-      "signal on the SPDP liveness channel carrying the SOURCE prefix; nothing on the acknack channel", _B_LIVE),
-    H("c12_mr_liveness_explicit_reader", _mr, "same with readerId = SPDP_BUILTIN_PARTICIPANT_READER", _B_LIVE),
+      "signal on the SPDP liveness channel carrying the SOURCE prefix; nothing on the acknack channel", _B_LIVE, tier="thorough", timeout=2400),
+    H("c12_mr_liveness_explicit_reader", _mr, "same with readerId = SPDP_BUILTIN_PARTICIPANT_READER", _B_LIVE, tier="thorough", timeout=2400),
     H("c12_mr_liveness_duplicate_unknown_reader", _mr,
       "the same DATA twice (same SN: a duplicate for the Reader): two signals, both with the source prefix — a repeated SPDP DATA is still a sign of life",
-      _B_LIVE + "; two handler invocations, all concrete but the source"),
+      _B_LIVE + "; two handler invocations, all concrete but the source", tier="thorough", timeout=2400),
     H("c12_mr_liveness_other_writer_explicit", _mr,
-      "a DATA from another builtin writer (SEDP publications writer) addressed to the SPDP reader produces NO liveness signal", _B_LIVE),
+      "a DATA from another builtin writer (SEDP publications writer) addressed to the SPDP reader produces NO liveness signal", _B_LIVE, tier="thorough", timeout=2400),
     H("c12_mr_liveness_other_writer_unknown", _mr,
-      "a DATA from P2P_BUILTIN_PARTICIPANT_MESSAGE_WRITER with readerId UNKNOWN produces NO liveness signal (and is delivered to no reader)", _B_LIVE),
+      "a DATA from P2P_BUILTIN_PARTICIPANT_MESSAGE_WRITER with readerId UNKNOWN produces NO liveness signal (and is delivered to no reader)", _B_LIVE, tier="thorough", timeout=2400),
     H("c12_mr_liveness_after_info_src", _mr,
-      "INFO_SRC(p) before the SPDP DATA: the signal carries p (the source of the DATA), not the prefix of the RTPS header", _B_LIVE),
+      "INFO_SRC(p) before the SPDP DATA: the signal carries p (the source of the DATA), not the prefix of the RTPS header", _B_LIVE, tier="thorough", timeout=2400),
     H("c12_mr_liveness_duplicate_explicit_reader", _mr, "duplicate DATA with explicit SPDP readerId: two signals", _B_LIVE, tier="thorough", timeout=1800),
     H("c12_mr_liveness_menu", _mr, "the four single-DATA cases as ONE query with a symbolic choice (real match, concrete arms)", _B_LIVE,
       tier="thorough", timeout=2400),
 ]
 
 MR_ASSUMPTIONS = ENV_STUBS + [
+    "stub: Reader::handle_data_msg -> recorder (which Reader got the DATA); the real body entered through the MessageReceiver did not finish in 300 s "
+    "(Bytes clone/drop through the vtable + topic cache); what a Reader does with a DATA is decided on the Reader rig (C01/C03). The liveness signal is sent by "
+    "MessageReceiver::handle_writer_submessage itself after that call; 'whether or not the Reader accepts the DATA as new' therefore holds by construction under Kani "
+    "and is exercised for real only in native replay",
+    "stub: std::panic::catch_unwind -> direct call (never executed; keeps Kani 0.68 from crashing on the drop glue of mio-extras Timer -> JoinHandle -> Packet, "
+    "which MessageReceiver::add_reader makes reachable)",
     "stub: mio_extras::channel::SyncSender::<T>::try_send -> recorder (payload told apart by size_of::<T>(): GuidPrefix = SPDP liveness, "
     "(GuidPrefix, AckSubmessage) = acknack channel), returns Ok(()); the real body's error type carries io::Error (drop glue explodes symbolic execution); "
     "channel-full / disconnected outcomes are therefore not explored. Natively the real channels are used and read back with try_recv",
